@@ -14,18 +14,28 @@
 //! standing for exactly one leftmost label); exact over wildcard; longest-lived among equals;
 //! default only when nothing loaded covers the name; failing operations change nothing.
 //!
-//! Part (b) (live worker, real handshakes, strict SNI binding) is to be added to this file as a
-//! second `run_*` function called from `run`. `CertPool` is public for that purpose.
+//! Part (b): live worker (`run_live`): the same kind of histories sent over the command channel of
+//! a `lab::Worker` with an HTTPS listener, judged by the leaf certificate presented in real TLS
+//! handshakes (same reference model), handshakes hammered while a replace is in flight, and
+//! strict SNI binding judged by what a recording backend sees (see the section "part (b)").
+//! Evidence keys are namespaced `a.*` / `b.*`.
 
 use std::{
     cell::RefCell,
     collections::{BTreeMap, BTreeSet, HashMap},
+    io::{self, Read, Write},
+    net::{SocketAddr, TcpStream},
     path::{Path, PathBuf},
-    sync::Arc,
+    sync::{
+        Arc, Mutex,
+        atomic::{AtomicBool, Ordering},
+    },
+    time::{Duration, Instant},
 };
 
 use rustls::{
-    pki_types::{CertificateDer, pem::PemObject},
+    ClientConfig, ClientConnection, StreamOwned,
+    pki_types::{CertificateDer, ServerName, pem::PemObject},
     server::{Acceptor, ResolvesServerCert},
     sign::CertifiedKey,
 };
@@ -33,11 +43,18 @@ use serde_json::{Value, json};
 use sha2::{Digest, Sha256};
 use sozu_command_lib::{
     certificate::Fingerprint,
-    proto::command::{AddCertificate, CertificateAndKey, ReplaceCertificate, SocketAddress},
+    proto::command::{
+        AddCertificate, CertificateAndKey, Cluster, RemoveCertificate, ReplaceCertificate,
+        ResponseStatus, SocketAddress, UpdateHttpsListenerConfig, request::RequestType,
+    },
 };
 use sozu_lib::tls::{CertificateResolver, MutexCertificateResolver};
 
-use crate::common::{Ctx, Report, Rng, guard, par_cases};
+use crate::{
+    common::{Ctx, Report, Rng, guard, par_cases, par_cases_named},
+    lab::{self, Worker, WorkerOpts},
+    peers::{self, BackendServer, IoProgram, h1, h2, tls},
+};
 
 // =====================================================================================
 // fixture pool (public: reused by the TLS handshake labs)
@@ -753,6 +770,10 @@ struct Lab<'a> {
     probes: &'a [Probe],
     /// per-history counters with static keys, flushed into the report at the end
     tally: RefCell<HashMap<&'static str, u64>>,
+    /// first component of the violation signatures: "resolver" (part a) or "live" (part b)
+    domain: &'static str,
+    /// part (b): what goes into the witness as `case` instead of the bare index
+    case_tag: Option<String>,
 }
 
 /// what the statement says about one probe name in the current state (both readings)
@@ -822,7 +843,11 @@ impl<'a> Lab<'a> {
     }
 
     fn witness(&self, extra: Value) -> Value {
-        let mut w = json!({"case": self.case, "seed": self.ctx.seed, "ops": self.ops, "model": self.model.json(self.pool)});
+        let case = match &self.case_tag {
+            Some(tag) => json!(tag),
+            None => json!(self.case),
+        };
+        let mut w = json!({"case": case, "seed": self.ctx.seed, "ops": self.ops, "model": self.model.json(self.pool)});
         if let (Some(o), Some(e)) = (w.as_object_mut(), extra.as_object()) {
             for (k, v) in e {
                 o.insert(k.clone(), v.clone());
@@ -897,8 +922,13 @@ impl<'a> Lab<'a> {
         let n = PROBE_NAMES[p.name_idx];
         let main = &allowed.view.a;
         let fail = |rep: &mut Report, sig: &str, what: String| {
+            // the judgements are the same for both labs; only the name space of the signature differs
+            let sig = match sig.strip_prefix("resolver/") {
+                Some(tail) if self.domain != "resolver" => format!("{}/{tail}", self.domain),
+                _ => sig.to_owned(),
+            };
             rep.violation(
-                sig,
+                &sig,
                 &what,
                 self.witness(json!({"probe": raw, "probe_bytes_hex": hex::encode(raw.as_bytes()), "probe_name": n,
                     "variant": p.variant.name(), "via": via, "got": served_json(pool, got),
@@ -1264,6 +1294,8 @@ fn run_history(ctx: &Ctx, pool: &CertPool, probes: &[Probe], case: u64, rep: &mu
         ops: Vec::new(),
         probes,
         tally: RefCell::new(HashMap::new()),
+        domain: "resolver",
+        case_tag: None,
     };
     // a history draws from a small sub-pool so that re-adds, overlaps and replacements collide
     let mut all = pool.loadable();
@@ -1718,12 +1750,1840 @@ pub fn run_resolver(ctx: &Ctx, rep: &mut Report) {
     par_cases(ctx, rep, n, |i, r| run_history(ctx, &pool, &probes, i, r));
 }
 
+// =====================================================================================
+// part (b): live worker — command channel, real handshakes, strict SNI binding
+// =====================================================================================
+//
+// A cell = one `lab::Worker` with an HTTPS listener on a private loopback address, a frontend
+// for every name of the alphabet, one cluster and one recording backend. The monitor plays the
+// main process: certificate commands go over the command channel, the reference model of part
+// (a) follows the worker's answers, and what the worker *serves* is observed from outside only:
+// the leaf certificate of real handshakes (rustls client for the case variants; a hand-built
+// TLS 1.2 ClientHello read up to the server's Certificate message where the SNI bytes must be
+// exact: trailing dot, U-label), the HTTP status of requests and the backend's request log.
+
+const LIVE_STREAM: u64 = 1702;
+const HS_TIMEOUT: Duration = Duration::from_secs(3);
+
+/// client configuration without session resumption: a resumed session gets no Certificate
+/// message, and every probe must see the certificate that was selected for it
+fn client_cfg(alpn: &[&str]) -> Arc<ClientConfig> {
+    let mut c = (*tls::client_config(alpn)).clone();
+    c.resumption = rustls::client::Resumption::disabled();
+    Arc::new(c)
+}
+
+enum Shake {
+    Done(tls::TlsClient, tls::HandshakeInfo),
+    /// the rustls client refuses to put this text into a ClientHello
+    ClientRejectsName,
+    /// the TLS layer ended the handshake (alert, protocol error)
+    Refused(String),
+    /// connect / socket error / timeout: says nothing about the property
+    Io(String),
+}
+
+fn full_handshake(addr: SocketAddr, sni: &str, cfg: &Arc<ClientConfig>) -> Shake {
+    if ServerName::try_from(sni.to_owned()).is_err() {
+        return Shake::ClientRejectsName;
+    }
+    let tcp = match peers::connect(addr, None, &IoProgram::fast(), Duration::from_secs(2)) {
+        Ok(t) => t,
+        Err(e) => return Shake::Io(format!("connect: {e}")),
+    };
+    match tls::TlsClient::handshake(tcp, sni, cfg.clone(), HS_TIMEOUT) {
+        Ok((t, info)) => Shake::Done(t, info),
+        Err(e) if e.kind() == io::ErrorKind::InvalidData => Shake::Refused(e.to_string()),
+        Err(e) => Shake::Io(e.to_string()),
+    }
+}
+
+/// which certificate of the pool a presented leaf is, by SHA-256 of its DER (sozu's fingerprint)
+fn served_of_leaf(pool: &CertPool, leaf: Option<&[u8]>) -> Served {
+    let Some(der) = leaf else {
+        return Served::Nothing;
+    };
+    let fp = Sha256::digest(der).to_vec();
+    match pool.index_of_sha256(&fp) {
+        Some(i) if pool.certs[i].role == "builtin_default" => Served::BuiltinDefault,
+        Some(i) => Served::Pool(i),
+        None => Served::Other,
+    }
+}
+
+/// A handshake stopped after the server's certificate arrived and before the client's last
+/// flight is written: what a slow client does. The server has selected its certificate and has
+/// not yet seen the handshake complete.
+struct Paused {
+    conn: ClientConnection,
+    tcp: TcpStream,
+    leaf: Option<Vec<u8>>,
+}
+
+fn paused_handshake(addr: SocketAddr, sni: &str, cfg: &Arc<ClientConfig>) -> Result<Paused, String> {
+    let name = ServerName::try_from(sni.to_owned()).map_err(|e| format!("name: {e}"))?;
+    let mut conn = ClientConnection::new(cfg.clone(), name).map_err(|e| format!("client: {e}"))?;
+    let mut tcp = peers::connect(addr, None, &IoProgram::fast(), Duration::from_secs(2))
+        .map_err(|e| format!("connect: {e}"))?;
+    let _ = tcp.set_read_timeout(Some(HS_TIMEOUT));
+    let _ = tcp.set_write_timeout(Some(HS_TIMEOUT));
+    loop {
+        while conn.wants_write() {
+            conn.write_tls(&mut tcp).map_err(|e| format!("write: {e}"))?;
+        }
+        match conn.read_tls(&mut tcp) {
+            Ok(0) => return Err("closed during the handshake".into()),
+            Ok(_) => {}
+            Err(e) => return Err(format!("read: {e}")),
+        }
+        conn.process_new_packets().map_err(|e| format!("tls: {e}"))?;
+        if let Some(chain) = conn.peer_certificates() {
+            let leaf = chain.first().map(|d| d.as_ref().to_vec());
+            return Ok(Paused { conn, tcp, leaf });
+        }
+        if !conn.is_handshaking() {
+            return Ok(Paused { conn, tcp, leaf: None });
+        }
+    }
+}
+
+impl Paused {
+    fn finish(self) -> io::Result<(tls::TlsClient, Option<Vec<u8>>)> {
+        let Paused { mut conn, mut tcp, .. } = self;
+        while conn.is_handshaking() {
+            conn.complete_io(&mut tcp)?;
+        }
+        while conn.wants_write() {
+            conn.write_tls(&mut tcp)?;
+        }
+        let alpn = conn.alpn_protocol().map(|p| p.to_vec());
+        Ok((tls::TlsClient { stream: StreamOwned::new(conn, tcp) }, alpn))
+    }
+}
+
+/// a ClientHello offering TLS 1.2 only (the server's Certificate message is then sent in clear),
+/// carrying `sni` verbatim
+fn client_hello12(sni: &[u8]) -> Vec<u8> {
+    fn u16be(n: usize) -> [u8; 2] {
+        (n as u16).to_be_bytes()
+    }
+    let mut ext = Vec::new();
+    let mut list = vec![0u8];
+    list.extend_from_slice(&u16be(sni.len()));
+    list.extend_from_slice(sni);
+    ext.extend_from_slice(&[0x00, 0x00]);
+    ext.extend_from_slice(&u16be(list.len() + 2));
+    ext.extend_from_slice(&u16be(list.len()));
+    ext.extend_from_slice(&list);
+    let algs: &[u16] = &[0x0403, 0x0804, 0x0401, 0x0503, 0x0805, 0x0501, 0x0806, 0x0601];
+    ext.extend_from_slice(&[0x00, 0x0d]);
+    ext.extend_from_slice(&u16be(algs.len() * 2 + 2));
+    ext.extend_from_slice(&u16be(algs.len() * 2));
+    for a in algs {
+        ext.extend_from_slice(&a.to_be_bytes());
+    }
+    // supported_groups: x25519, secp256r1, secp384r1
+    ext.extend_from_slice(&[0x00, 0x0a, 0x00, 0x08, 0x00, 0x06, 0x00, 0x1d, 0x00, 0x17, 0x00, 0x18]);
+    // ec_point_formats: uncompressed
+    ext.extend_from_slice(&[0x00, 0x0b, 0x00, 0x02, 0x01, 0x00]);
+    // extended_master_secret
+    ext.extend_from_slice(&[0x00, 0x17, 0x00, 0x00]);
+    // renegotiation_info (empty)
+    ext.extend_from_slice(&[0xff, 0x01, 0x00, 0x01, 0x00]);
+
+    let mut body = vec![0x03, 0x03];
+    body.extend_from_slice(&[0x5b; 32]);
+    body.push(0);
+    // ECDHE-ECDSA and ECDHE-RSA suites of rustls' TLS 1.2 set
+    let suites: &[u16] = &[0xc02b, 0xc02f, 0xc02c, 0xc030, 0xcca9, 0xcca8];
+    body.extend_from_slice(&u16be(suites.len() * 2));
+    for c in suites {
+        body.extend_from_slice(&c.to_be_bytes());
+    }
+    body.extend_from_slice(&[0x01, 0x00]);
+    body.extend_from_slice(&u16be(ext.len()));
+    body.extend_from_slice(&ext);
+
+    let mut hs = vec![0x01, 0x00];
+    hs.extend_from_slice(&u16be(body.len()));
+    hs.extend_from_slice(&body);
+    let mut rec = vec![0x16, 0x03, 0x01];
+    rec.extend_from_slice(&u16be(hs.len()));
+    rec.extend_from_slice(&hs);
+    rec
+}
+
+enum RawShake {
+    Leaf(Vec<u8>),
+    /// alert, close or a ServerHelloDone without certificate
+    NoCertificate(String),
+    Io(String),
+}
+
+/// send a TLS 1.2 ClientHello and read the server's first flight up to its Certificate message
+fn raw_tls12_probe(addr: SocketAddr, hello: &[u8]) -> RawShake {
+    let mut tcp = match peers::connect(addr, None, &IoProgram::fast(), Duration::from_secs(2)) {
+        Ok(t) => t,
+        Err(e) => return RawShake::Io(format!("connect: {e}")),
+    };
+    let _ = tcp.set_read_timeout(Some(HS_TIMEOUT));
+    let _ = tcp.set_write_timeout(Some(HS_TIMEOUT));
+    if let Err(e) = tcp.write_all(hello) {
+        return RawShake::Io(format!("write: {e}"));
+    }
+    let mut rec: Vec<u8> = Vec::new();
+    let mut hs: Vec<u8> = Vec::new();
+    let mut buf = [0u8; 16384];
+    loop {
+        while rec.len() >= 5 {
+            let len = u16::from_be_bytes([rec[3], rec[4]]) as usize;
+            if rec.len() < 5 + len {
+                break;
+            }
+            let typ = rec[0];
+            let body: Vec<u8> = rec[5..5 + len].to_vec();
+            rec.drain(..5 + len);
+            match typ {
+                0x16 => hs.extend_from_slice(&body),
+                0x15 => {
+                    return RawShake::NoCertificate(format!("alert {}", body.get(1).copied().unwrap_or(0)));
+                }
+                _ => {}
+            }
+        }
+        let mut off = 0;
+        while hs.len() >= off + 4 {
+            let t = hs[off];
+            let l = ((hs[off + 1] as usize) << 16) | ((hs[off + 2] as usize) << 8) | hs[off + 3] as usize;
+            if hs.len() < off + 4 + l {
+                break;
+            }
+            let m = &hs[off + 4..off + 4 + l];
+            if t == 11 {
+                if m.len() < 6 {
+                    return RawShake::NoCertificate("empty certificate list".into());
+                }
+                let cl = ((m[3] as usize) << 16) | ((m[4] as usize) << 8) | m[5] as usize;
+                if m.len() < 6 + cl {
+                    return RawShake::Io("certificate message does not parse".into());
+                }
+                return RawShake::Leaf(m[6..6 + cl].to_vec());
+            }
+            if t == 14 {
+                return RawShake::NoCertificate("ServerHelloDone without Certificate".into());
+            }
+            off += 4 + l;
+        }
+        match tcp.read(&mut buf) {
+            Ok(0) => return RawShake::NoCertificate("closed".into()),
+            Ok(n) => rec.extend_from_slice(&buf[..n]),
+            Err(e) if e.kind() == io::ErrorKind::Interrupted => {}
+            Err(e) if matches!(e.kind(), io::ErrorKind::ConnectionReset | io::ErrorKind::BrokenPipe) => {
+                return RawShake::NoCertificate("reset".into());
+            }
+            Err(e) => return RawShake::Io(format!("read: {e}")),
+        }
+    }
+}
+
+// ---------------------------------------------------------------------------------------
+// requests
+// ---------------------------------------------------------------------------------------
+
+#[derive(Clone, Debug, PartialEq, Eq)]
+enum Answer {
+    Status(u16),
+    /// H2 stream reset without a status
+    Reset(u32),
+    Closed,
+    Timeout,
+    Error(String),
+}
+
+impl Answer {
+    fn text(&self) -> String {
+        match self {
+            Answer::Status(s) => s.to_string(),
+            Answer::Reset(c) => format!("rst_{c}"),
+            Answer::Closed => "closed".into(),
+            Answer::Timeout => "timeout".into(),
+            Answer::Error(_) => "error".into(),
+        }
+    }
+}
+
+fn h1_request(t: &mut tls::TlsClient, authority: &[u8], path: &str) -> Answer {
+    let mut req = format!("GET {path} HTTP/1.1\r\nHost: ").into_bytes();
+    req.extend_from_slice(authority);
+    req.extend_from_slice(b"\r\nUser-Agent: c17\r\n\r\n");
+    t.set_timeouts(Duration::from_millis(300), Duration::from_secs(2));
+    if t.write_all(&req).is_err() || t.flush().is_err() {
+        return Answer::Closed;
+    }
+    let mut p = h1::Parser::new(h1::Kind::Response, false);
+    let mut buf = [0u8; 8192];
+    let mut status: Option<u16> = None;
+    let deadline = Instant::now() + Duration::from_secs(4);
+    loop {
+        if Instant::now() > deadline {
+            return status.map(Answer::Status).unwrap_or(Answer::Timeout);
+        }
+        match t.read(&mut buf) {
+            Ok(0) => return status.map(Answer::Status).unwrap_or(Answer::Closed),
+            Ok(n) => match p.feed(&buf[..n]) {
+                Ok(events) => {
+                    for e in events {
+                        match e {
+                            h1::Event::Head(h) => status = h.status(),
+                            h1::Event::End(_) => {
+                                return status.map(Answer::Status).unwrap_or(Answer::Error("end without head".into()));
+                            }
+                            h1::Event::Body(_) => {}
+                        }
+                    }
+                }
+                Err(e) => return status.map(Answer::Status).unwrap_or(Answer::Error(e.0)),
+            },
+            Err(e) if matches!(e.kind(), io::ErrorKind::WouldBlock | io::ErrorKind::TimedOut | io::ErrorKind::Interrupted) => {}
+            Err(_) => return status.map(Answer::Status).unwrap_or(Answer::Closed),
+        }
+    }
+}
+
+fn h2_request(c: &mut h2::H2Conn<tls::TlsClient>, authority: &[u8], path: &str) -> Answer {
+    let sid = c.next_stream_id();
+    let mut headers = h2::request_headers("GET", "https", "x", path, &[("user-agent", "c17")]);
+    headers[2].1 = authority.to_vec();
+    if let Err(e) = c.send_headers(sid, &headers, true) {
+        return if c.is_closed() || matches!(e, h2::H2Error::Closed) { Answer::Closed } else { Answer::Error(format!("{e}")) };
+    }
+    let mut status: Option<u16> = None;
+    let deadline = Instant::now() + Duration::from_secs(4);
+    loop {
+        if Instant::now() > deadline {
+            return status.map(Answer::Status).unwrap_or(Answer::Timeout);
+        }
+        match c.poll(Duration::from_millis(200)) {
+            Ok(Some(h2::Event::Headers { stream, headers, end_stream })) if stream == sid => {
+                if let Some(s) = h2::header_str(&headers, ":status").and_then(|s| s.parse().ok()) {
+                    status = Some(s);
+                }
+                if end_stream {
+                    return status.map(Answer::Status).unwrap_or(Answer::Error("no :status".into()));
+                }
+            }
+            Ok(Some(h2::Event::Data { stream, end_stream, .. })) if stream == sid => {
+                if end_stream {
+                    return status.map(Answer::Status).unwrap_or(Answer::Error("data without headers".into()));
+                }
+            }
+            Ok(Some(h2::Event::RstStream { stream, code })) if stream == sid => {
+                return status.map(Answer::Status).unwrap_or(Answer::Reset(code));
+            }
+            Ok(Some(h2::Event::Closed)) => return status.map(Answer::Status).unwrap_or(Answer::Closed),
+            Ok(_) => {}
+            Err(h2::H2Error::Closed) => return status.map(Answer::Status).unwrap_or(Answer::Closed),
+            Err(e) => return status.map(Answer::Status).unwrap_or(Answer::Error(format!("{e}"))),
+        }
+    }
+}
+
+/// the forms in which a request names its target (case, port, trailing dot, IDN)
+#[derive(Clone, Copy, Debug, PartialEq, Eq)]
+enum AForm {
+    Plain,
+    Upper,
+    Mixed,
+    Port443,
+    PortOther,
+    TrailingDot,
+    TrailingDotPort,
+    ULabel,
+}
+
+const AFORMS: &[AForm] = &[
+    AForm::Plain,
+    AForm::Plain,
+    AForm::Upper,
+    AForm::Mixed,
+    AForm::Port443,
+    AForm::PortOther,
+    AForm::TrailingDot,
+    AForm::TrailingDotPort,
+    AForm::ULabel,
+];
+
+impl AForm {
+    fn name(self) -> &'static str {
+        match self {
+            AForm::Plain => "plain",
+            AForm::Upper => "upper_case",
+            AForm::Mixed => "mixed_case",
+            AForm::Port443 => "port_443",
+            AForm::PortOther => "port_8443",
+            AForm::TrailingDot => "trailing_dot",
+            AForm::TrailingDotPort => "trailing_dot_and_port",
+            AForm::ULabel => "idn_u_label",
+        }
+    }
+    /// the authority bytes naming host `n` (None: the form does not exist for this name)
+    fn text(self, n: &str) -> Option<Vec<u8>> {
+        Some(match self {
+            AForm::Plain => n.as_bytes().to_vec(),
+            AForm::Upper => n.to_ascii_uppercase().into_bytes(),
+            AForm::Mixed => variant_text(n, Variant::Mixed).into_bytes(),
+            AForm::Port443 => format!("{n}:443").into_bytes(),
+            AForm::PortOther => format!("{n}:8443").into_bytes(),
+            AForm::TrailingDot => format!("{n}.").into_bytes(),
+            AForm::TrailingDotPort => format!("{n}.:443").into_bytes(),
+            AForm::ULabel => ULABEL_PROBES.iter().find(|(a, _)| *a == n)?.1.as_bytes().to_vec(),
+        })
+    }
+}
+
+#[derive(Clone, Copy, Debug, PartialEq, Eq)]
+enum Cover {
+    Covered,
+    Uncovered,
+    /// the names the certificate was loaded with and the names inside it disagree about this host
+    Unclear,
+}
+
+impl Cover {
+    fn name(self) -> &'static str {
+        match self {
+            Cover::Covered => "covered",
+            Cover::Uncovered => "uncovered",
+            Cover::Unclear => "unclear",
+        }
+    }
+}
+
+/// the certificate a connection was served, frozen when its handshake was observed
+#[derive(Clone, Debug)]
+struct ConnCert {
+    served: Served,
+    /// what it was loaded with at that moment (names after overrides)
+    effective: Option<Entry>,
+}
+
+/// does the certificate served on the connection cover host `n` (a name of the alphabet, in
+/// comparison form)? Judged with the names it was loaded under and with the names inside the
+/// certificate; the two must agree for a verdict.
+fn cover_of(pool: &CertPool, cc: &ConnCert, n: &str) -> Cover {
+    let idx = match &cc.served {
+        Served::Pool(i) => *i,
+        Served::BuiltinDefault => match pool.certs.iter().position(|c| c.role == "builtin_default") {
+            Some(i) => i,
+            None => return Cover::Unclear,
+        },
+        _ => return Cover::Unclear,
+    };
+    let real = pool.certs[idx].names().iter().any(|c| covers(&canon(c), n).is_some());
+    let eff = match &cc.effective {
+        Some(e) => e.canon_names.iter().any(|c| covers(c, n).is_some()),
+        None => real,
+    };
+    match (real, eff) {
+        (true, true) => Cover::Covered,
+        (false, false) => Cover::Uncovered,
+        _ => Cover::Unclear,
+    }
+}
+
+enum Wire {
+    H1(tls::TlsClient),
+    H2(Box<h2::H2Conn<tls::TlsClient>>),
+}
+
+/// an established TLS connection on which requests are sent
+struct LiveConn {
+    wire: Wire,
+    sni_idx: usize,
+    cc: ConnCert,
+    open: bool,
+    /// requests sent so far
+    sent: u32,
+    /// when, in terms of the command list, the handshake happened (for the witness)
+    note: String,
+}
+
+impl LiveConn {
+    fn new(t: tls::TlsClient, alpn: Option<&[u8]>, sni_idx: usize, cc: ConnCert, note: String) -> Result<LiveConn, String> {
+        let wire = if alpn == Some(b"h2") {
+            let mut c = h2::H2Conn::new(t, h2::Role::Client);
+            c.auto_ack = true;
+            c.obey_windows = true;
+            c.replenish = h2::Replenish::Immediately;
+            c.handshake_client(&[(h2::SET_ENABLE_PUSH, 0)]).map_err(|e| format!("h2 preface: {e}"))?;
+            Wire::H2(Box::new(c))
+        } else {
+            Wire::H1(t)
+        };
+        Ok(LiveConn { wire, sni_idx, cc, open: true, sent: 0, note })
+    }
+    fn proto(&self) -> &'static str {
+        match self.wire {
+            Wire::H1(_) => "h1",
+            Wire::H2(_) => "h2",
+        }
+    }
+    fn request(&mut self, authority: &[u8], path: &str) -> Answer {
+        let a = match &mut self.wire {
+            Wire::H1(t) => h1_request(t, authority, path),
+            Wire::H2(c) => h2_request(c, authority, path),
+        };
+        if matches!(a, Answer::Closed | Answer::Timeout | Answer::Error(_)) {
+            self.open = false;
+        }
+        a
+    }
+}
+
+// ---------------------------------------------------------------------------------------
+// the cell
+// ---------------------------------------------------------------------------------------
+
+struct HamRec {
+    name_idx: usize,
+    leaf: Option<Vec<u8>>,
+    refused: bool,
+    io_error: Option<String>,
+    started: Instant,
+    ended: Instant,
+}
+
+struct Cell<'a> {
+    lab: Lab<'a>,
+    w: Option<Worker>,
+    addr: SocketAddr,
+    paddr: SocketAddress,
+    _backend: BackendServer,
+    /// request targets the backend has seen
+    hits: Arc<Mutex<Vec<String>>>,
+    cfg_h1: Arc<ClientConfig>,
+    cfg_h2: Arc<ClientConfig>,
+    tok: u64,
+    /// loaded with the key of another certificate
+    foreign_key: BTreeSet<usize>,
+    /// requests that must never show up at the backend: (path, signature, what, witness extras)
+    forbidden: Vec<(String, String, String, Value)>,
+    dead: bool,
+    max_loaded: usize,
+    removed_present: u64,
+    shape: Vec<u8>,
+    rounds: u64,
+    strict_setting: Option<bool>,
+}
+
+/// VH_C17_DEBUG=1 prints every request and its answer
+fn debug_requests() -> bool {
+    static ON: std::sync::OnceLock<bool> = std::sync::OnceLock::new();
+    *ON.get_or_init(|| std::env::var_os("VH_C17_DEBUG").is_some())
+}
+
+fn live_exempt_key(reason: &str) -> &'static str {
+    match reason {
+        "expiry_tie" => "probes_exempt/expiry_tie",
+        "certificate_name_not_in_comparison_form" => "probes_exempt/certificate_name_not_in_comparison_form",
+        "trailing_dot" => "probes_exempt/trailing_dot",
+        "idn_u_label" => "probes_exempt/idn_u_label",
+        _ => "probes_exempt/other",
+    }
+}
+
+impl<'a> Cell<'a> {
+    fn start(
+        ctx: &'a Ctx,
+        pool: &'a CertPool,
+        probes: &'a [Probe],
+        case: u64,
+        strict: Option<bool>,
+        rep: &mut Report,
+    ) -> Option<Cell<'a>> {
+        let ip = lab::fresh_ip();
+        let addr = lab::sa(ip, 8443);
+        let back = lab::sa(ip, 9000);
+        let hits: Arc<Mutex<Vec<String>>> = Arc::new(Mutex::new(Vec::new()));
+        let log = hits.clone();
+        let backend = BackendServer::start(back, IoProgram::fast(), move |mut s, _| {
+            let mut p = h1::Parser::new(h1::Kind::Request, false);
+            let mut buf = [0u8; 8192];
+            loop {
+                let n = match s.read(&mut buf) {
+                    Ok(0) | Err(_) => return,
+                    Ok(n) => n,
+                };
+                let Ok(events) = p.feed(&buf[..n]) else { return };
+                for e in events {
+                    match e {
+                        h1::Event::Head(h) => log.lock().unwrap_or_else(|e| e.into_inner()).push(h.second.clone()),
+                        h1::Event::End(_) => {
+                            let _ = s.write_all(b"HTTP/1.1 200 OK\r\nContent-Length: 2\r\nX-C17-Backend: hit\r\n\r\nok");
+                        }
+                        h1::Event::Body(_) => {}
+                    }
+                }
+            }
+        });
+        let backend = match backend {
+            Ok(b) => b,
+            Err(_) => {
+                rep.inconclusive("the recording backend could not bind its address");
+                return None;
+            }
+        };
+        let mut w = Worker::start(WorkerOpts::default());
+        let mut ok = w.add_https_listener(addr, |b| b.strict_sni_binding = strict)
+            && w.add_cluster(Cluster { cluster_id: "c".into(), ..Default::default() })
+            && w.add_backend("c", "b0", back);
+        for n in PROBE_NAMES {
+            ok = ok && w.add_https_frontend(Worker::http_frontend("c", addr, n, "/"));
+        }
+        if !ok {
+            let _ = w.stop();
+            rep.inconclusive("the worker refused the listener / cluster / frontend set-up");
+            return None;
+        }
+        Some(Cell {
+            lab: Lab {
+                ctx,
+                pool,
+                case,
+                mres: MutexCertificateResolver::default(),
+                model: Model::default(),
+                ops: Vec::new(),
+                probes,
+                tally: RefCell::new(HashMap::new()),
+                domain: "live",
+                case_tag: Some(format!("b:{case}")),
+            },
+            w: Some(w),
+            addr,
+            paddr: addr.into(),
+            _backend: backend,
+            hits,
+            cfg_h1: client_cfg(&["http/1.1"]),
+            cfg_h2: client_cfg(&["h2", "http/1.1"]),
+            tok: 0,
+            foreign_key: BTreeSet::new(),
+            forbidden: Vec::new(),
+            dead: false,
+            max_loaded: 0,
+            removed_present: 0,
+            shape: Vec::new(),
+            rounds: 0,
+            strict_setting: strict,
+        })
+    }
+
+    /// send one command, Some(true) = Ok, Some(false) = Failure
+    fn command(&mut self, rep: &mut Report, verb: &str, rt: RequestType) -> Option<bool> {
+        let Some(w) = self.w.as_mut() else { return None };
+        match w.call(rt, Duration::from_secs(5)) {
+            Ok(r) if r.status == ResponseStatus::Ok as i32 => {
+                rep.obs(&format!("commands/{verb}/ok"), 1);
+                Some(true)
+            }
+            Ok(r) if r.status == ResponseStatus::Failure as i32 => {
+                rep.obs(&format!("commands/{verb}/failed"), 1);
+                Some(false)
+            }
+            _ => {
+                rep.inconclusive("no final answer to a certificate command within 5 s");
+                self.dead = true;
+                None
+            }
+        }
+    }
+
+    /// the same request handed to a `CertificateResolver` of this process: not a verdict, the
+    /// evidence says how often the worker's answer and the library's result agree
+    fn compare_direct(&self, rep: &mut Report, verb: &str, worker_ok: bool, direct_ok: bool) {
+        if worker_ok == direct_ok {
+            rep.obs("answers_agreeing_with_direct_api", 1);
+        } else {
+            rep.obs(&format!("nonverdict_answer_differs_from_direct_api/{verb}"), 1);
+        }
+    }
+
+    fn install(&mut self, s: &Submission) {
+        self.lab.install(s);
+        if matches!(s.fault, Fault::KeyMismatchSameAlg | Fault::KeyMismatchOtherAlg) {
+            self.foreign_key.insert(s.cert);
+        } else {
+            self.foreign_key.remove(&s.cert);
+        }
+        self.max_loaded = self.max_loaded.max(self.lab.model.loaded.len());
+    }
+
+    fn uninstall(&mut self, idx: usize) {
+        self.lab.uninstall(idx);
+        self.foreign_key.remove(&idx);
+        self.removed_present += 1;
+    }
+
+    /// None: the history cannot go on; Some(answered_ok) otherwise
+    fn op_add(&mut self, rep: &mut Report, s: &Submission) -> Option<bool> {
+        let pool = self.lab.pool;
+        let add = AddCertificate {
+            address: self.paddr,
+            certificate: s.build(pool),
+            expired_at: s.expired_at,
+        };
+        let direct = self.lab.lock().add_certificate(&add).is_ok();
+        let was_loaded = self.lab.model.loaded.contains_key(&s.cert);
+        self.shape.extend_from_slice(&[
+            0,
+            s.cert as u8,
+            s.fault as u8,
+            was_loaded as u8,
+            s.names.len() as u8,
+            s.expired_at.is_some() as u8,
+        ]);
+        let ok = self.command(rep, "add", RequestType::AddCertificate(add))?;
+        self.compare_direct(rep, "add", ok, direct);
+        self.lab.ops.push(json!({"op": "add", "submitted": s.json(pool), "answer": if ok { "ok" } else { "failure" }}));
+        rep.obs(&format!("add_fault/{}/{}", s.fault.name(), if ok { "accepted" } else { "rejected" }), 1);
+        if ok {
+            if s.fault.damages_certificate() {
+                rep.violation(
+                    &format!("live/unusable_certificate_accepted/add/{}", s.fault.name()),
+                    "AddCertificate was answered Ok although its certificate field holds no certificate",
+                    self.lab.witness(json!({})),
+                );
+                return None;
+            }
+            if was_loaded {
+                rep.obs("add_idempotent_already_loaded", 1);
+            } else {
+                self.install(s);
+            }
+        } else {
+            if s.fault == Fault::None {
+                rep.inconclusive("AddCertificate with an intact certificate answered Failure");
+                return None;
+            }
+            rep.obs("failing_add", 1);
+        }
+        Some(ok)
+    }
+
+    fn op_remove(&mut self, rep: &mut Report, class: &str, text: &str) -> Option<bool> {
+        let pool = self.lab.pool;
+        let decoded = hex::decode(text).ok();
+        let target = decoded.as_ref().and_then(|b| pool.index_of_sha256(b));
+        let present = target.is_some_and(|t| self.lab.model.loaded.contains_key(&t));
+        let direct = match &decoded {
+            Some(b) => self.lab.lock().remove_certificate(&Fingerprint(b.clone())).is_ok(),
+            None => false,
+        };
+        self.shape.extend_from_slice(&[1, target.map(|t| t as u8).unwrap_or(255), present as u8]);
+        let rm = RemoveCertificate {
+            address: self.paddr,
+            fingerprint: text.to_owned(),
+        };
+        let ok = self.command(rep, "remove", RequestType::RemoveCertificate(rm))?;
+        self.compare_direct(rep, "remove", ok, direct);
+        self.lab.ops.push(json!({"op": "remove", "target": target.map(|t| pool.certs[t].id.clone()), "fingerprint": text,
+            "class": class, "was_loaded": present, "answer": if ok { "ok" } else { "failure" }}));
+        rep.obs(&format!("remove_target/{class}/{}", if ok { "ok" } else { "failed" }), 1);
+        if ok {
+            if present {
+                rep.obs("remove_of_loaded_certificate", 1);
+                self.uninstall(target.unwrap());
+            }
+        } else if present {
+            rep.obs("failing_remove_of_loaded_certificate", 1);
+        }
+        Some(ok)
+    }
+
+    /// `hammer`: name indices on which a second thread keeps handshaking while the command is in
+    /// flight
+    fn op_replace(
+        &mut self,
+        rep: &mut Report,
+        s: &Submission,
+        old_class: &str,
+        old_text: &str,
+        hammer: Option<Vec<usize>>,
+    ) -> Option<bool> {
+        let pool = self.lab.pool;
+        let old_idx = hex::decode(old_text).ok().and_then(|b| pool.index_of_sha256(&b));
+        let old_loaded = old_idx.filter(|o| self.lab.model.loaded.contains_key(o));
+        let new_loaded = self.lab.model.loaded.contains_key(&s.cert);
+        let replace = ReplaceCertificate {
+            address: self.paddr,
+            new_certificate: s.build(pool),
+            old_fingerprint: old_text.to_owned(),
+            new_expired_at: s.expired_at,
+        };
+        let direct = self.lab.lock().replace_certificate(&replace).is_ok();
+        self.shape.extend_from_slice(&[
+            2,
+            s.cert as u8,
+            s.fault as u8,
+            old_idx.map(|o| o as u8).unwrap_or(255),
+            old_loaded.is_some() as u8,
+            new_loaded as u8,
+            hammer.is_some() as u8,
+        ]);
+        let before: Vec<NameView> = match &hammer {
+            Some(_) => PROBE_NAMES.iter().map(|n| self.lab.view(n)).collect(),
+            None => Vec::new(),
+        };
+        let mut window: Option<(Vec<HamRec>, Instant, Instant)> = None;
+        let answer = match &hammer {
+            None => self.command(rep, "replace", RequestType::ReplaceCertificate(replace)),
+            Some(targets) => {
+                let stop = AtomicBool::new(false);
+                let addr = self.addr;
+                let cfg = self.cfg_h1.clone();
+                let (ans, recs, t_send, t_resp) = std::thread::scope(|sc| {
+                    let stop = &stop;
+                    let h = std::thread::Builder::new()
+                        .name("c17-hammer".into())
+                        .spawn_scoped(sc, move || {
+                            let mut out: Vec<HamRec> = Vec::new();
+                            let mut k = 0usize;
+                            while !stop.load(Ordering::SeqCst) && out.len() < 300 {
+                                let name_idx = targets[k % targets.len()];
+                                k += 1;
+                                let started = Instant::now();
+                                let r = full_handshake(addr, PROBE_NAMES[name_idx], &cfg);
+                                let ended = Instant::now();
+                                let (leaf, refused, io_error) = match r {
+                                    Shake::Done(_, info) => (info.chain.first().cloned(), false, None),
+                                    Shake::Refused(_) => (None, true, None),
+                                    Shake::ClientRejectsName => (None, false, Some("name".to_owned())),
+                                    Shake::Io(e) => (None, false, Some(e)),
+                                };
+                                out.push(HamRec { name_idx, leaf, refused, io_error, started, ended });
+                            }
+                            out
+                        })
+                        .expect("spawn hammer thread");
+                    // let a handshake or two complete against the old state first
+                    std::thread::sleep(Duration::from_millis(3));
+                    let t_send = Instant::now();
+                    let ans = self.command(rep, "replace", RequestType::ReplaceCertificate(replace));
+                    let t_resp = Instant::now();
+                    std::thread::sleep(Duration::from_millis(3));
+                    stop.store(true, Ordering::SeqCst);
+                    let recs = h.join().unwrap_or_default();
+                    (ans, recs, t_send, t_resp)
+                });
+                window = Some((recs, t_send, t_resp));
+                ans
+            }
+        };
+        let ok = answer?;
+        self.compare_direct(rep, "replace", ok, direct);
+        self.lab.ops.push(json!({"op": "replace", "old": {"class": old_class, "text": old_text, "cert": old_idx.map(|o| pool.certs[o].id.clone()), "was_loaded": old_loaded.is_some()},
+            "new": s.json(pool), "new_was_loaded": new_loaded, "handshakes_hammered_meanwhile": hammer.is_some(), "answer": if ok { "ok" } else { "failure" }}));
+        rep.obs(&format!("replace_fault/{}/{}", s.fault.name(), if ok { "accepted" } else { "rejected" }), 1);
+        rep.obs(&format!("replace_old/{old_class}/{}", if ok { "ok" } else { "failed" }), 1);
+        if ok {
+            if s.fault.damages_certificate() {
+                rep.violation(
+                    &format!("live/unusable_certificate_accepted/replace/{}", s.fault.name()),
+                    "ReplaceCertificate was answered Ok although its certificate field holds no certificate",
+                    self.lab.witness(json!({})),
+                );
+                return None;
+            }
+            if old_idx == Some(s.cert) {
+                // by itself (only generated while it is loaded): nothing moves
+                rep.obs("replace_with_itself_loaded", 1);
+            } else {
+                if !new_loaded {
+                    self.install(s);
+                } else {
+                    rep.obs("replace_new_already_loaded", 1);
+                }
+                if let Some(o) = old_loaded {
+                    rep.obs("replace_of_loaded_certificate_by_another", 1);
+                    self.uninstall(o);
+                }
+            }
+        } else {
+            rep.obs("failing_replace", 1);
+            if old_loaded.is_some() {
+                rep.obs("failing_replace_of_loaded_certificate", 1);
+            }
+            if s.fault == Fault::None {
+                rep.obs("nonverdict_replace_with_intact_certificate_rejected", 1);
+            }
+        }
+        if let Some((recs, t_send, t_resp)) = window {
+            if !self.judge_window(rep, &before, recs, t_send, t_resp, ok) {
+                return None;
+            }
+        }
+        Some(ok)
+    }
+
+    /// every handshake made while a replace was on its way must have been served what the state
+    /// before or the state after the command serves — never the default for a name covered on
+    /// both sides
+    fn judge_window(
+        &mut self,
+        rep: &mut Report,
+        before: &[NameView],
+        recs: Vec<HamRec>,
+        t_send: Instant,
+        t_resp: Instant,
+        answered_ok: bool,
+    ) -> bool {
+        let pool = self.lab.pool;
+        rep.obs("replace_windows_probed", 1);
+        rep.obs(if answered_ok { "replace_windows_probed/successful_replace" } else { "replace_windows_probed/failing_replace" }, 1);
+        let after: Vec<NameView> = PROBE_NAMES.iter().map(|n| self.lab.view(n)).collect();
+        let mut in_flight = 0u64;
+        for r in recs {
+            if let Some(e) = &r.io_error {
+                rep.obs("replace_window_handshakes/socket_error", 1);
+                rep.sample(json!({"hammer_socket_error": e}));
+                continue;
+            }
+            let phase = if r.ended < t_send {
+                "before"
+            } else if r.started > t_resp {
+                "after"
+            } else {
+                "in_flight"
+            };
+            rep.obs(&format!("replace_window_handshakes/{phase}"), 1);
+            if phase == "in_flight" {
+                in_flight += 1;
+            }
+            let vb = &before[r.name_idx];
+            let va = &after[r.name_idx];
+            let (use_b, use_a) = (phase != "after", phase != "before");
+            let open = |v: &NameView| v.readings_differ || v.a.best.len() > 1;
+            if (use_b && open(vb)) || (use_a && open(va)) {
+                rep.obs("replace_window_handshakes/exempt", 1);
+                continue;
+            }
+            let mut allowed: BTreeSet<usize> = BTreeSet::new();
+            let mut default_ok = false;
+            if use_b {
+                allowed.extend(vb.a.best.iter().copied());
+                default_ok |= vb.a.spec.is_none();
+            }
+            if use_a {
+                allowed.extend(va.a.best.iter().copied());
+                default_ok |= va.a.spec.is_none();
+            }
+            if vb.a.spec.is_some() && va.a.spec.is_some() {
+                rep.obs("replace_window_handshakes/name_covered_before_and_after", 1);
+                if vb.a.best != va.a.best {
+                    rep.obs("replace_window_handshakes/name_changes_certificate", 1);
+                }
+            }
+            let got = if r.refused { Served::Nothing } else { served_of_leaf(pool, r.leaf.as_deref()) };
+            let name = PROBE_NAMES[r.name_idx];
+            let witness = |lab: &Lab| {
+                lab.witness(json!({"probe": name, "via": "handshake during ReplaceCertificate", "phase": phase,
+                    "got": served_json(pool, &got),
+                    "served_before_any_of": vb.a.best.iter().map(|i| pool.certs[*i].id.clone()).collect::<Vec<_>>(),
+                    "served_after_any_of": va.a.best.iter().map(|i| pool.certs[*i].id.clone()).collect::<Vec<_>>(),
+                    "the_replace_is_the_last_op": true}))
+            };
+            match &got {
+                Served::Pool(i) if allowed.contains(i) => {
+                    if vb.a.best != va.a.best {
+                        rep.obs(if vb.a.best.contains(i) { "replace_window_saw_old" } else { "replace_window_saw_new" }, 1);
+                    }
+                }
+                Served::Pool(i) => {
+                    let sig = if phase == "after" && vb.a.best.contains(i) {
+                        "live/replace_window/old_certificate_served_after_answer"
+                    } else {
+                        "live/replace_window/unexpected_certificate"
+                    };
+                    rep.violation(
+                        sig,
+                        &format!("a handshake for {name} ({phase} the ReplaceCertificate) was served {}, which neither the state before nor the state after the command serves for that name", pool.certs[*i].id),
+                        witness(&self.lab),
+                    );
+                    return false;
+                }
+                Served::BuiltinDefault | Served::Nothing | Served::Other if default_ok => {}
+                Served::BuiltinDefault | Served::Nothing | Served::Other => {
+                    if r.refused && allowed.iter().any(|i| self.foreign_key.contains(i)) {
+                        rep.obs("nonverdict_handshake_refused_certificate_has_foreign_key", 1);
+                        continue;
+                    }
+                    rep.violation(
+                        "live/replace_window/default_for_covered_name",
+                        &format!("a handshake for {name} ({phase} the ReplaceCertificate) got the default certificate / none although the name is covered before and after the command"),
+                        witness(&self.lab),
+                    );
+                    return false;
+                }
+                Served::HelloRejected => {}
+            }
+        }
+        if in_flight > 0 {
+            rep.obs("replace_windows_with_in_flight_handshake", 1);
+        }
+        true
+    }
+
+    /// one full handshake with accounting; None = nothing to judge (accounted for inside)
+    #[allow(clippy::type_complexity)]
+    fn shake(
+        &mut self,
+        rep: &mut Report,
+        sni: &str,
+        want_h2: bool,
+    ) -> Option<Result<(tls::TlsClient, Option<Vec<u8>>, Served), String>> {
+        let cfg = if want_h2 { self.cfg_h2.clone() } else { self.cfg_h1.clone() };
+        let mut out = full_handshake(self.addr, sni, &cfg);
+        if matches!(out, Shake::Refused(_) | Shake::Io(_)) {
+            rep.obs("handshake_retries", 1);
+            out = full_handshake(self.addr, sni, &cfg);
+        }
+        match out {
+            Shake::Done(t, info) => {
+                rep.obs("handshakes", 1);
+                rep.obs("handshakes/full_rustls_client", 1);
+                let got = served_of_leaf(self.lab.pool, info.chain.first().map(|v| v.as_slice()));
+                Some(Ok((t, info.alpn, got)))
+            }
+            Shake::ClientRejectsName => {
+                rep.obs("sni_refused_by_the_rustls_client", 1);
+                None
+            }
+            Shake::Refused(why) => {
+                rep.obs("handshakes", 1);
+                rep.obs("handshakes_refused", 1);
+                Some(Err(why))
+            }
+            Shake::Io(why) => {
+                rep.inconclusive("a probe handshake failed twice with a socket error or timeout");
+                rep.sample(json!({"handshake_socket_error": why, "sni": sni}));
+                self.dead = true;
+                None
+            }
+        }
+    }
+
+    /// every probe of the alphabet once; false = stop the history (violation or dead cell)
+    fn probe_round(&mut self, rep: &mut Report, rng: &mut Rng) -> bool {
+        if self.dead {
+            return false;
+        }
+        let pool = self.lab.pool;
+        let probes = self.lab.probes;
+        self.rounds += 1;
+        rep.obs("probe_rounds", 1);
+        self.lab.t("states_checked");
+        let views: Vec<NameView> = PROBE_NAMES.iter().map(|n| self.lab.view(n)).collect();
+        let covered_names: Vec<usize> = (0..PROBE_NAMES.len()).filter(|i| views[*i].a.spec.is_some()).collect();
+        let parity = self.rounds % 2;
+        let mut names_probed: BTreeSet<usize> = BTreeSet::new();
+        for p in probes {
+            let view = &views[p.name_idx];
+            let full = matches!(p.variant, Variant::Lower | Variant::Upper | Variant::Mixed);
+            if (p.variant == Variant::Upper && parity == 0) || (p.variant == Variant::Mixed && parity == 1) {
+                continue;
+            }
+            // a name nothing covers gets the (costly: RSA 4096) default certificate: its canonical
+            // form is probed every round, its other forms one round in three
+            if p.variant != Variant::Lower && view.a.spec.is_none() && !rng.chance(1, 3) {
+                continue;
+            }
+            let mut conn: Option<(tls::TlsClient, Option<Vec<u8>>)> = None;
+            let mut refused: Option<String> = None;
+            let via;
+            let got = if full {
+                via = "handshake";
+                let want_h2 = p.variant == Variant::Lower && rng.chance(1, 2);
+                match self.shake(rep, &p.raw, want_h2) {
+                    Some(Ok((t, alpn, got))) => {
+                        conn = Some((t, alpn));
+                        got
+                    }
+                    Some(Err(why)) => {
+                        refused = Some(why);
+                        Served::Nothing
+                    }
+                    None if self.dead => return false,
+                    None => continue,
+                }
+            } else {
+                via = "tls12_server_flight";
+                let hello = client_hello12(p.raw.as_bytes());
+                let mut r = raw_tls12_probe(self.addr, &hello);
+                if matches!(r, RawShake::Io(_)) {
+                    rep.obs("handshake_retries", 1);
+                    r = raw_tls12_probe(self.addr, &hello);
+                }
+                match r {
+                    RawShake::Leaf(der) => {
+                        rep.obs("handshakes", 1);
+                        rep.obs("handshakes/tls12_hand_built_hello", 1);
+                        served_of_leaf(pool, Some(&der))
+                    }
+                    RawShake::NoCertificate(why) => {
+                        rep.obs("handshakes", 1);
+                        rep.obs(
+                            match p.variant {
+                                Variant::TrailingDot => "hand_built_hello_refused/trailing_dot",
+                                Variant::ULabel => "hand_built_hello_refused/idn_u_label",
+                                _ => "hand_built_hello_refused/other",
+                            },
+                            1,
+                        );
+                        refused = Some(why);
+                        Served::Nothing
+                    }
+                    RawShake::Io(why) => {
+                        rep.inconclusive("a hand-built TLS 1.2 probe failed twice with a socket error or timeout");
+                        rep.sample(json!({"handshake_socket_error": why, "sni": p.raw}));
+                        self.dead = true;
+                        return false;
+                    }
+                }
+            };
+            names_probed.insert(p.name_idx);
+            let allowed = self.lab.allowed(view, full, p.variant.name());
+            self.lab.t("probes");
+            self.lab.t(match p.variant {
+                Variant::Lower => "probes_by_variant/canonical",
+                Variant::Upper => "probes_by_variant/upper_case",
+                Variant::Mixed => "probes_by_variant/mixed_case",
+                Variant::TrailingDot => "probes_by_variant/trailing_dot",
+                Variant::ULabel => "probes_by_variant/idn_u_label",
+            });
+            match allowed.exempt {
+                Some(reason) => {
+                    self.lab.t("probes_exempt");
+                    self.lab.t(live_exempt_key(reason));
+                    if !full && matches!(got, Served::BuiltinDefault | Served::Nothing) && view.a.spec.is_some() {
+                        self.lab.t(match p.variant {
+                            Variant::TrailingDot => "nonverdict_default_for_covered_name/trailing_dot",
+                            _ => "nonverdict_default_for_covered_name/idn_u_label",
+                        });
+                    }
+                }
+                None => {
+                    self.lab.count_decision(view);
+                    match got {
+                        Served::BuiltinDefault => self.lab.t("served_builtin_default"),
+                        Served::Pool(_) => self.lab.t("served_pool_certificate"),
+                        _ => {}
+                    }
+                }
+            }
+            if let Some(why) = refused {
+                if allowed.exempt.is_none() && !allowed.nothing {
+                    if allowed.set.iter().any(|i| self.foreign_key.contains(i)) {
+                        rep.obs("nonverdict_handshake_refused_certificate_has_foreign_key", 1);
+                        continue;
+                    }
+                    rep.violation(
+                        "live/handshake_refused_for_covered_name",
+                        &format!("the handshake for {} was refused twice ({why}) although a loaded certificate covers the name", p.raw),
+                        self.lab.witness(json!({"probe": p.raw, "variant": p.variant.name(), "via": via, "refusal": why,
+                            "expected_any_of": allowed.set.iter().map(|i| pool.certs[*i].id.clone()).collect::<Vec<_>>()})),
+                    );
+                    return false;
+                }
+                rep.obs("nonverdict_handshake_refused_for_uncovered_or_exempt_name", 1);
+                continue;
+            }
+            if got == Served::Other && allowed.nothing {
+                rep.obs("other_default_served", 1);
+            } else if !self.lab.judge(rep, via, p, &got, None, &allowed) {
+                return false;
+            }
+            // requests on some of the canonical connections
+            if let Some((t, alpn)) = conn {
+                let wanted = match got {
+                    Served::Pool(_) => rng.chance(2, 3),
+                    Served::BuiltinDefault => rng.chance(1, 6),
+                    _ => false,
+                };
+                if p.variant == Variant::Lower && wanted {
+                    let cc = ConnCert {
+                        effective: match &got {
+                            Served::Pool(i) => self.lab.model.loaded.get(i).cloned(),
+                            _ => None,
+                        },
+                        served: got.clone(),
+                    };
+                    let note = format!("full handshake after command #{}", self.lab.ops.len());
+                    match LiveConn::new(t, alpn.as_deref(), p.name_idx, cc, note) {
+                        Ok(mut lc) => {
+                            let other = |rng: &mut Rng| -> usize {
+                                let pick_from_covered = !covered_names.is_empty() && rng.chance(2, 3);
+                                for _ in 0..8 {
+                                    let c = if pick_from_covered {
+                                        *rng.pick(&covered_names)
+                                    } else {
+                                        rng.usize_below(PROBE_NAMES.len())
+                                    };
+                                    if c != p.name_idx {
+                                        return c;
+                                    }
+                                }
+                                (p.name_idx + 1) % PROBE_NAMES.len()
+                            };
+                            // its own name first most of the time: sozu closes the connection after
+                            // a 421, so the cross-name request usually has to come last
+                            let mut plan: Vec<(usize, AForm)> = vec![(p.name_idx, *rng.pick(AFORMS)), (other(rng), *rng.pick(AFORMS))];
+                            if rng.chance(1, 4) {
+                                plan.reverse();
+                            }
+                            for (n, f) in plan {
+                                if !lc.open {
+                                    break;
+                                }
+                                self.request(rep, &mut lc, n, f, "steady");
+                            }
+                        }
+                        Err(e) => {
+                            rep.obs("h2_preface_failed", 1);
+                            rep.sample(json!({"h2_preface_failed": e}));
+                        }
+                    }
+                }
+            }
+        }
+        rep.obs_max("names_probed_per_round", names_probed.len() as u64);
+        // store view of the shadow resolver is not looked at: only what the worker serves counts
+        true
+    }
+
+    /// one request on an established connection, judged against the certificate served on it
+    fn request(&mut self, rep: &mut Report, conn: &mut LiveConn, name_idx: usize, form: AForm, scenario: &'static str) -> Option<(Answer, bool)> {
+        let pool = self.lab.pool;
+        let n = PROBE_NAMES[name_idx];
+        let auth = form.text(n)?;
+        self.tok += 1;
+        let path = format!("/c17/{}/{}", self.lab.case, self.tok);
+        let proto = conn.proto();
+        let follow_up = conn.sent > 0;
+        conn.sent += 1;
+        let ans = conn.request(&auth, &path);
+        let hit = self.hits.lock().unwrap_or_else(|e| e.into_inner()).iter().any(|p| p == &path);
+        if follow_up && !hit && matches!(ans, Answer::Closed | Answer::Error(_)) {
+            // sozu closes a connection after some of its own answers (421 among them): this request
+            // was never read
+            rep.obs("requests_on_a_connection_sozu_had_closed", 1);
+            return None;
+        }
+        let cover = cover_of(pool, &conn.cc, n);
+        let sni = PROBE_NAMES[conn.sni_idx];
+        let scen: &str = match (&conn.cc.served, scenario) {
+            (Served::BuiltinDefault, "steady") if n == sni => "default_certificate_authority_equals_sni",
+            (Served::BuiltinDefault, "steady") => "default_certificate_other_authority",
+            (_, s) => s,
+        };
+        if debug_requests() {
+            eprintln!("[c17] case {} conn sni={sni} served={} {proto} authority={:?} -> {:?} hit={hit} cover={} scenario={scenario}", self.lab.case, served_json(pool, &conn.cc.served), String::from_utf8_lossy(&auth), ans, cover.name());
+        }
+        rep.obs("requests", 1);
+        rep.obs(&format!("requests/{proto}/{}/{}", cover.name(), ans.text()), 1);
+        match cover {
+            Cover::Uncovered => {
+                rep.obs("cross_name_requests", 1);
+                rep.obs(&format!("uncovered_authority_requests/{proto}"), 1);
+                rep.obs(&format!("uncovered_authority_requests/scenario/{scen}"), 1);
+                rep.obs(&format!("uncovered_authority_requests/form/{}", form.name()), 1);
+                rep.obs("backend_hits_for_uncovered_authorities", 0);
+                let sig = format!("strict_sni/uncovered_authority_routed/{scen}/{proto}");
+                let served_id = served_json(pool, &conn.cc.served);
+                let what = format!(
+                    "strict SNI binding: on a connection opened with SNI {sni} and served {served_id}, a request for authority {:?} (host {n}, which that certificate does not cover) reached the backend",
+                    String::from_utf8_lossy(&auth)
+                );
+                let extra = json!({"sni": sni, "served": served_id,
+                    "served_loaded_with_names": conn.cc.effective.as_ref().map(|e| e.names.clone()),
+                    "authority": String::from_utf8_lossy(&auth), "authority_hex": hex::encode(&auth), "authority_host": n,
+                    "authority_form": form.name(), "protocol": proto, "scenario": scen, "answer": ans.text(), "request_path": path,
+                    "connection": conn.note, "request_sent_after_command": self.lab.ops.len(),
+                    "listener_strict_sni_binding": self.strict_setting.map(|b| json!(b)).unwrap_or(json!("unset (default true)"))});
+                if hit {
+                    rep.obs("backend_hits_for_uncovered_authorities", 1);
+                    rep.violation(&sig, &what, self.lab.witness(extra));
+                } else {
+                    match ans {
+                        Answer::Status(421) => rep.obs("uncovered_authority_answered_421", 1),
+                        _ => rep.obs(&format!("uncovered_authority_answered_otherwise/{}", ans.text()), 1),
+                    }
+                    self.forbidden.push((path, sig, what, extra));
+                }
+            }
+            Cover::Covered => {
+                if hit {
+                    rep.obs("covered_authority_routed", 1);
+                    rep.obs(&format!("covered_authority_routed/form/{}", form.name()), 1);
+                } else {
+                    rep.obs(&format!("nonverdict_covered_authority_not_routed/{}/{}", form.name(), ans.text()), 1);
+                }
+            }
+            Cover::Unclear => rep.obs("requests_exempt_cover_unclear", 1),
+        }
+        Some((ans, hit))
+    }
+
+    /// end of the cell: late backend arrivals, worker panics, counters
+    fn finish(mut self, rep: &mut Report, nontrivial: bool) {
+        if !self.forbidden.is_empty() {
+            // a request refused by sozu cannot arrive later; one that was routed has had a round
+            // trip already. Leave the backend a moment all the same.
+            std::thread::sleep(Duration::from_millis(5));
+        }
+        let hits: Vec<String> = self.hits.lock().unwrap_or_else(|e| e.into_inner()).clone();
+        rep.obs("backend_requests_seen", hits.len() as u64);
+        let forbidden = std::mem::take(&mut self.forbidden);
+        for (path, sig, what, extra) in forbidden {
+            if hits.contains(&path) {
+                rep.obs("backend_hits_for_uncovered_authorities", 1);
+                rep.violation(&sig, &format!("{what} (seen by the backend after the answer)"), self.lab.witness(extra));
+            }
+        }
+        if let Some(w) = self.w.take() {
+            for p in w.stop() {
+                if p.in_sozu() {
+                    rep.violation(
+                        &format!("live/worker_panic/{}", p.signature()),
+                        &format!("the worker panicked: {} at {}", p.message, p.location),
+                        self.lab.witness(json!({"panic": p.message, "location": p.location})),
+                    );
+                } else {
+                    rep.broken(&format!("harness-side panic in the worker thread: {} at {}", p.message, p.location));
+                }
+            }
+        }
+        self.lab.flush(rep);
+        rep.obs_max("certificates_loaded_at_once", self.max_loaded as u64);
+        rep.case_bytes(&self.shape, nontrivial && self.rounds > 0);
+    }
+}
+
+// ---------------------------------------------------------------------------------------
+// histories
+// ---------------------------------------------------------------------------------------
+
+fn run_live_history(ctx: &Ctx, pool: &CertPool, probes: &[Probe], case: u64, rep: &mut Report) {
+    let mut rng = Rng::for_case(ctx.seed, LIVE_STREAM, case);
+    let strict = if rng.bool() { Some(true) } else { None };
+    let Some(mut cell) = Cell::start(ctx, pool, probes, case, strict, rep) else {
+        return;
+    };
+    rep.obs("histories", 1);
+    let mut all = pool.loadable();
+    rng.shuffle(&mut all);
+    let k = rng.urange(3, 9).min(all.len());
+    let sub: Vec<usize> = all[..k].to_vec();
+    let n_ops = rng.urange(6, ctx.tier.pick(16, 22));
+    let mut since_round = 0u32;
+    let mut gap = rng.urange(1, 4) as u32;
+    let mut alive = true;
+    for _step in 0..n_ops {
+        if ctx.out_of_time() {
+            break;
+        }
+        let verb = rng.below(100);
+        let answered: Option<bool>;
+        if verb < 45 || cell.lab.model.loaded.is_empty() && verb < 70 {
+            let s = gen_submission(&mut rng, pool, &sub, (3, 20));
+            answered = cell.op_add(rep, &s);
+        } else if verb < 65 {
+            let loaded: Vec<usize> = cell.lab.model.loaded.keys().copied().collect();
+            let removed: Vec<usize> = cell.lab.model.removed.keys().copied().collect();
+            let (class, text): (&str, String) = match rng.below(20) {
+                0..=1 if !removed.is_empty() => ("removed_before", pool.certs[*rng.pick(&removed)].sha256_hex()),
+                2 => ("any_of_pool", pool.certs[*rng.pick(&sub)].sha256_hex()),
+                3 => ("not_hex", (*rng.pick(&["zz", "0", "not a fingerprint", "g0f1"])).to_owned()),
+                4 => ("unknown_fingerprint", hex::encode(rng.bytes(32))),
+                5 => ("empty_or_short", (*rng.pick(&["", "00", "deadbeef"])).to_owned()),
+                6 if !loaded.is_empty() => ("loaded_upper_case_hex", pool.certs[*rng.pick(&loaded)].sha256_hex().to_uppercase()),
+                _ if !loaded.is_empty() => ("loaded", pool.certs[*rng.pick(&loaded)].sha256_hex()),
+                _ => ("any_of_pool", pool.certs[*rng.pick(&sub)].sha256_hex()),
+            };
+            answered = cell.op_remove(rep, class, &text);
+        } else {
+            let s = gen_submission(&mut rng, pool, &sub, (5, 20));
+            let loaded: Vec<usize> = cell.lab.model.loaded.keys().copied().collect();
+            let removed: Vec<usize> = cell.lab.model.removed.keys().copied().collect();
+            let new_hex = pool.certs[s.cert].sha256_hex();
+            let new_loaded = cell.lab.model.loaded.contains_key(&s.cert);
+            let (mut old_class, mut old_text): (&str, String) = match rng.below(20) {
+                0..=2 => ("same_as_new", new_hex.clone()),
+                3 if !removed.is_empty() => ("removed_before", pool.certs[*rng.pick(&removed)].sha256_hex()),
+                4 => ("any_of_pool", pool.certs[*rng.pick(&sub)].sha256_hex()),
+                5 => ("not_hex", (*rng.pick(&["zz", "0", "not a fingerprint", "g0f1"])).to_owned()),
+                6 => ("empty_or_short", (*rng.pick(&["", "00", "deadbeef"])).to_owned()),
+                7 if !loaded.is_empty() => ("loaded_upper_case_hex", pool.certs[*rng.pick(&loaded)].sha256_hex().to_uppercase()),
+                8 => ("unknown_fingerprint", hex::encode(rng.bytes(32))),
+                _ if !loaded.is_empty() => ("loaded", pool.certs[*rng.pick(&loaded)].sha256_hex()),
+                _ => ("any_of_pool", pool.certs[*rng.pick(&sub)].sha256_hex()),
+            };
+            // "replace X by X" while X is not loaded: the statement does not say what is loaded
+            // afterwards and the worker's store cannot be read from outside: not generated here
+            // (part (a) covers it with get_certificate)
+            if !new_loaded && old_text.eq_ignore_ascii_case(&new_hex) {
+                old_class = "unknown_fingerprint";
+                old_text = hex::encode(rng.bytes(32));
+            }
+            // handshakes from a second thread while the command is in flight
+            let hammer = if rng.chance(1, 2) {
+                let mut covered: Vec<usize> = (0..PROBE_NAMES.len())
+                    .filter(|i| cell.lab.view(PROBE_NAMES[*i]).a.spec.is_some())
+                    .collect();
+                rng.shuffle(&mut covered);
+                covered.truncate(3);
+                if covered.is_empty() {
+                    covered.push(rng.usize_below(PROBE_NAMES.len()));
+                }
+                Some(covered)
+            } else {
+                None
+            };
+            answered = cell.op_replace(rep, &s, old_class, &old_text, hammer);
+        }
+        if answered.is_none() || cell.dead {
+            alive = false;
+            break;
+        }
+        let failed_op = answered == Some(false);
+        since_round += 1;
+        // after a failing command always look (nothing may have moved); else every 1..3 steps
+        if failed_op || since_round >= gap {
+            if failed_op {
+                rep.obs("probe_rounds_right_after_a_failing_command", 1);
+            }
+            if !cell.probe_round(rep, &mut rng) {
+                alive = false;
+                break;
+            }
+            since_round = 0;
+            gap = rng.urange(1, 4) as u32;
+        }
+    }
+    if alive && !cell.dead && since_round > 0 {
+        let _ = cell.probe_round(rep, &mut rng);
+    }
+    if case < 2 {
+        rep.sample(json!({"case": format!("b:{case}"), "ops": cell.lab.ops, "final_model": cell.lab.model.json(pool)}));
+    }
+    let nontrivial = cell.max_loaded >= 2 || cell.removed_present > 0;
+    cell.finish(rep, nontrivial);
+}
+
+// ---------------------------------------------------------------------------------------
+// scenario cells: the served certificate is frozen per connection
+// ---------------------------------------------------------------------------------------
+
+/// (certificate loaded first, certificate that comes later, X covered by both, Y covered by the
+/// later one only) — from the SANs of the pool, no overrides
+const NATURAL_PAIRS: &[(&str, &str, &str, &str)] = &[
+    ("a-ec-10y", "multi3-ec-100y", "a.example.test", "b.example.test"),
+    ("b-ec-10y", "multi3-ec-100y", "b.example.test", "a.example.test"),
+    ("a-rsa-20y", "twin2-ec-20y", "a.example.test", "b.example.test"),
+    ("ab-ec-10y", "multi2-rsa-10y", "a.b.example.test", "b.example.test"),
+    ("a-ec-100y", "multi1-ec-20y", "a.example.test", "c.b.example.test"),
+    ("cnonly-c-ec-20y", "wild-rsa-100y", "c.example.test", "a.example.test"),
+    ("b-rsa-100y", "twin1-ec-10y", "b.example.test", "a.example.test"),
+];
+
+const SCENARIO_HOSTS: &[&str] = &[
+    "a.example.test",
+    "b.example.test",
+    "c.example.test",
+    "example.test",
+    "a.b.example.test",
+    "a.example.org",
+];
+
+fn name_index(n: &str) -> usize {
+    PROBE_NAMES.iter().position(|p| *p == n).expect("scenario host is a name of the alphabet")
+}
+
+fn run_live_scenario(ctx: &Ctx, pool: &CertPool, probes: &[Probe], case: u64, rep: &mut Report) {
+    let mut rng = Rng::for_case(ctx.seed, LIVE_STREAM, case);
+    let strict = if rng.bool() { Some(true) } else { None };
+    // the two certificates and the two hosts
+    let (a_sub, b_sub, x, y) = if rng.bool() {
+        let (a, b, x, y) = *rng.pick(NATURAL_PAIRS);
+        let (Some(ai), Some(bi)) = (
+            pool.certs.iter().position(|c| c.id == a),
+            pool.certs.iter().position(|c| c.id == b),
+        ) else {
+            rep.broken(&format!("fixtures {a} / {b} missing"));
+            return;
+        };
+        (
+            Submission { cert: ai, names: vec![], expired_at: None, fault: Fault::None, key_from: None },
+            Submission { cert: bi, names: vec![], expired_at: None, fault: Fault::None, key_from: None },
+            x,
+            y,
+        )
+    } else {
+        let loadable = pool.loadable();
+        let x = *rng.pick(SCENARIO_HOSTS);
+        let mut y = *rng.pick(SCENARIO_HOSTS);
+        while y == x {
+            y = *rng.pick(SCENARIO_HOSTS);
+        }
+        // the first certificate's own names must not cover Y, or nothing can be decided
+        let mut ai = *rng.pick(&loadable);
+        for _ in 0..40 {
+            if !pool.certs[ai].names().iter().any(|c| covers(&canon(c), y).is_some()) {
+                break;
+            }
+            ai = *rng.pick(&loadable);
+        }
+        let mut bi = *rng.pick(&loadable);
+        while bi == ai {
+            bi = *rng.pick(&loadable);
+        }
+        (
+            Submission { cert: ai, names: vec![x.to_owned()], expired_at: None, fault: Fault::None, key_from: None },
+            Submission { cert: bi, names: vec![x.to_owned(), y.to_owned()], expired_at: None, fault: Fault::None, key_from: None },
+            x,
+            y,
+        )
+    };
+    let (xi, yi) = (name_index(x), name_index(y));
+    let Some(mut cell) = Cell::start(ctx, pool, probes, case, strict, rep) else {
+        return;
+    };
+    rep.obs("scenario_cells", 1);
+    cell.shape.extend_from_slice(&[9, a_sub.cert as u8, b_sub.cert as u8, xi as u8, yi as u8, a_sub.names.len() as u8]);
+    let a_hex = pool.certs[a_sub.cert].sha256_hex();
+    let b_hex = pool.certs[b_sub.cert].sha256_hex();
+
+    // opens a connection with SNI X and checks what it was served against the model
+    fn open(cell: &mut Cell, rep: &mut Report, xi: usize, want_h2: bool) -> Option<LiveConn> {
+        let x = PROBE_NAMES[xi];
+        match cell.shake(rep, x, want_h2)? {
+            Ok((t, alpn, got)) => {
+                let cc = ConnCert {
+                    effective: match &got {
+                        Served::Pool(i) => cell.lab.model.loaded.get(i).cloned(),
+                        _ => None,
+                    },
+                    served: got,
+                };
+                let note = format!("full handshake after command #{}", cell.lab.ops.len());
+                LiveConn::new(t, alpn.as_deref(), xi, cc, note).ok()
+            }
+            Err(_) => None,
+        }
+    }
+
+    'script: {
+        // ---------- the resolver changes after the handshake ----------
+        if cell.op_add(rep, &a_sub) != Some(true) {
+            break 'script;
+        }
+        let mut conns: Vec<LiveConn> = Vec::new();
+        for want_h2 in [false, true] {
+            if let Some(c) = open(&mut cell, rep, xi, want_h2) {
+                if c.cc.served != Served::Pool(a_sub.cert) {
+                    rep.obs("scenario_unexpected_certificate_before_the_change", 1);
+                }
+                conns.push(c);
+            }
+        }
+        if cell.dead {
+            break 'script;
+        }
+        for c in conns.iter_mut() {
+            if let Some((_, hit)) = cell.request(rep, c, xi, AForm::Plain, "steady") {
+                if hit {
+                    rep.obs("scenario_baseline_request_routed", 1);
+                }
+            }
+        }
+        let by_replace = rng.bool();
+        let changed = if by_replace {
+            cell.op_replace(rep, &b_sub, "loaded", &a_hex, None)
+        } else {
+            cell.op_add(rep, &b_sub)
+        };
+        if changed != Some(true) || cell.dead {
+            break 'script;
+        }
+        rep.obs(if by_replace { "scenario_change/replace" } else { "scenario_change/add" }, 1);
+        for c in conns.iter_mut() {
+            if !c.open {
+                rep.obs("scenario_connection_closed_before_the_cross_request", 1);
+                continue;
+            }
+            let form = *rng.pick(&[AForm::Plain, AForm::Plain, AForm::Upper, AForm::Port443, AForm::TrailingDot]);
+            if cell.request(rep, c, yi, form, "resolver_changed_after_handshake").is_some() {
+                rep.obs("scenario/after_handshake_requests", 1);
+            }
+        }
+        drop(conns);
+        // a new connection sees the new state (what it is served is judged like any probe)
+        if let Some(mut c) = open(&mut cell, rep, xi, rng.bool()) {
+            let _ = cell.request(rep, &mut c, yi, AForm::Plain, "steady");
+        }
+        if !cell.probe_round(rep, &mut rng) {
+            break 'script;
+        }
+
+        // ---------- the resolver changes during the handshake ----------
+        // back to "only the first certificate is loaded"
+        if cell.op_remove(rep, "loaded", &b_hex) != Some(true) {
+            break 'script;
+        }
+        if !cell.lab.model.loaded.contains_key(&a_sub.cert) && cell.op_add(rep, &a_sub) != Some(true) {
+            break 'script;
+        }
+        let mut paused: Vec<(Paused, bool)> = Vec::new();
+        for want_h2 in [false, true] {
+            let cfg = if want_h2 { cell.cfg_h2.clone() } else { cell.cfg_h1.clone() };
+            match paused_handshake(cell.addr, x, &cfg) {
+                Ok(p) => {
+                    rep.obs("handshakes", 1);
+                    rep.obs("handshakes/paused_before_the_client_finishes", 1);
+                    paused.push((p, want_h2));
+                }
+                Err(e) => {
+                    rep.obs("paused_handshake_failed", 1);
+                    rep.sample(json!({"paused_handshake_failed": e}));
+                }
+            }
+        }
+        // the certificate each of them has been sent
+        let entry_a = cell.lab.model.loaded.get(&a_sub.cert).cloned();
+        let paused_at = cell.lab.ops.len();
+        if cell.op_replace(rep, &b_sub, "loaded", &a_hex, None) != Some(true) || cell.dead {
+            break 'script;
+        }
+        for (p, _want_h2) in paused {
+            let got = served_of_leaf(pool, p.leaf.as_deref());
+            if got != Served::Pool(a_sub.cert) {
+                rep.obs("scenario_unexpected_certificate_before_the_change", 1);
+            }
+            let cc = ConnCert {
+                effective: if got == Served::Pool(a_sub.cert) { entry_a.clone() } else { None },
+                served: got,
+            };
+            let (t, alpn) = match p.finish() {
+                Ok(v) => v,
+                Err(e) => {
+                    rep.obs("paused_handshake_failed", 1);
+                    rep.sample(json!({"paused_handshake_did_not_finish": e.to_string()}));
+                    continue;
+                }
+            };
+            let note = format!(
+                "ClientHello sent and the server's certificate received after command #{paused_at}; the client's last handshake flight sent after command #{}",
+                cell.lab.ops.len()
+            );
+            let Ok(mut c) = LiveConn::new(t, alpn.as_deref(), xi, cc, note) else {
+                rep.obs("h2_preface_failed", 1);
+                continue;
+            };
+            let form = *rng.pick(&[AForm::Plain, AForm::Plain, AForm::Upper, AForm::Port443]);
+            if cell.request(rep, &mut c, yi, form, "resolver_changed_during_handshake").is_some() {
+                rep.obs("scenario/during_handshake_requests", 1);
+            }
+            if c.open {
+                let _ = cell.request(rep, &mut c, xi, AForm::Plain, "steady");
+            }
+        }
+        // the other way round: served the certificate covering X and Y, replaced by the one for
+        // X alone while the client is slow: Y stays covered by what was served (never a verdict)
+        if let Ok(p) = paused_handshake(cell.addr, x, &cell.cfg_h1.clone()) {
+            rep.obs("handshakes", 1);
+            rep.obs("handshakes/paused_before_the_client_finishes", 1);
+            let entry_b = cell.lab.model.loaded.get(&b_sub.cert).cloned();
+            if cell.op_replace(rep, &a_sub, "loaded", &b_hex, None) != Some(true) || cell.dead {
+                break 'script;
+            }
+            let got = served_of_leaf(pool, p.leaf.as_deref());
+            let cc = ConnCert {
+                effective: if got == Served::Pool(b_sub.cert) { entry_b } else { None },
+                served: got,
+            };
+            if let Ok((t, alpn)) = p.finish() {
+                if let Ok(mut c) = LiveConn::new(t, alpn.as_deref(), xi, cc, "paused across a replace".into()) {
+                    if let Some((ans, hit)) = cell.request(rep, &mut c, yi, AForm::Plain, "steady") {
+                        rep.obs(
+                            &format!("nonverdict_covered_by_served_but_not_by_current/{}", if hit { "routed".to_owned() } else { ans.text() }),
+                            1,
+                        );
+                    }
+                }
+            }
+        }
+        if !cell.probe_round(rep, &mut rng) {
+            break 'script;
+        }
+
+        // ---------- control: without strict binding the same request is routed ----------
+        let patch = UpdateHttpsListenerConfig {
+            address: cell.paddr,
+            strict_sni_binding: Some(false),
+            ..Default::default()
+        };
+        if cell.command(rep, "update_listener", RequestType::UpdateHttpsListener(patch)) == Some(true) {
+            if let Some(mut c) = open(&mut cell, rep, xi, false) {
+                let n = PROBE_NAMES[yi];
+                if cover_of(pool, &c.cc, n) == Cover::Uncovered {
+                    cell.tok += 1;
+                    let path = format!("/c17/{}/control-{}", cell.lab.case, cell.tok);
+                    let ans = c.request(n.as_bytes(), &path);
+                    let hit = cell.hits.lock().unwrap_or_else(|e| e.into_inner()).iter().any(|p| p == &path);
+                    if hit {
+                        rep.obs("control_nonstrict_uncovered_authority_routed", 1);
+                    } else {
+                        rep.obs(&format!("control_nonstrict_uncovered_authority_not_routed/{}", ans.text()), 1);
+                    }
+                }
+            }
+        }
+    }
+    cell.max_loaded = cell.max_loaded.max(2);
+    cell.finish(rep, true);
+}
+
+fn run_live_case(ctx: &Ctx, pool: &CertPool, probes: &[Probe], case: u64, rep: &mut Report) {
+    if case % 6 == 5 {
+        run_live_scenario(ctx, pool, probes, case, rep);
+    } else {
+        run_live_history(ctx, pool, probes, case, rep);
+    }
+}
+
+// =====================================================================================
+// entry points
+// =====================================================================================
+
+/// part (b): live worker
+pub fn run_live(ctx: &Ctx, rep: &mut Report) {
+    rep.assume("part (b): the model follows the worker's answers (Ok: the command took effect as the statement describes; Failure: nothing moved); a certificate field holding no certificate answered Ok is a violation, an intact AddCertificate answered Failure is inconclusive");
+    rep.assume("part (b): the listener has no certificate of its own, so the default certificate is the one compiled into sozu (fixture builtin-default); a refused handshake for a name nothing covers is counted, not judged");
+    rep.assume("part (b): the rustls client sends the SNI as given except for a trailing dot, which it strips: case variants are full handshakes, trailing-dot and U-label SNIs are sent in a hand-built TLS 1.2 ClientHello and the leaf is read from the server's clear-text Certificate message; both are open choices as in part (a) (anything loaded that covers the name, or the default), but never a certificate that is not loaded");
+    rep.assume("part (b), strict SNI binding: a request is judged only when the names the served certificate was loaded with and the names inside it agree that the request's host is not covered; the verdict is whether the recording backend saw the request (every name of the alphabet has a frontend, and a control connection on the same listener with strict_sni_binding=false shows such a request is routed otherwise); the status is counted (421 expected), not judged; U-label authorities are judged by their A-label");
+    rep.assume("part (b): `replace X by X` while X is not loaded is not generated (the worker's store cannot be read from outside); part (a) covers it");
+    for k in [
+        "histories",
+        "scenario_cells",
+        "handshakes",
+        "handshakes/full_rustls_client",
+        "handshakes/tls12_hand_built_hello",
+        "handshakes/paused_before_the_client_finishes",
+        "probe_rounds",
+        "probes_decided/exact",
+        "probes_decided/wildcard",
+        "probes_decided/default_nothing_covers",
+        "probes_decided/exact_over_wildcard",
+        "probes_decided/longest_lived_among_equals",
+        "probes_on_names_of_removed_certificates",
+        "served_pool_certificate",
+        "served_builtin_default",
+        "commands/add/ok",
+        "commands/add/failed",
+        "commands/remove/ok",
+        "commands/remove/failed",
+        "commands/replace/ok",
+        "commands/replace/failed",
+        "remove_of_loaded_certificate",
+        "replace_of_loaded_certificate_by_another",
+        "replace_with_itself_loaded",
+        "failing_replace_of_loaded_certificate",
+        "probe_rounds_right_after_a_failing_command",
+        "replace_windows_probed/successful_replace",
+        "replace_windows_probed/failing_replace",
+        "replace_window_handshakes/in_flight",
+        "replace_window_handshakes/name_covered_before_and_after",
+        "replace_window_handshakes/name_changes_certificate",
+        "cross_name_requests",
+        "uncovered_authority_requests/h1",
+        "uncovered_authority_requests/h2",
+        "uncovered_authority_answered_421",
+        "covered_authority_routed",
+        "scenario/after_handshake_requests",
+        "scenario/during_handshake_requests",
+        "control_nonstrict_uncovered_authority_routed",
+    ] {
+        rep.require(k);
+    }
+    lab::raise_fd_limit();
+    let pool = match CertPool::load(&ctx.root) {
+        Ok(p) => p,
+        Err(e) => {
+            rep.broken(&format!("certificate fixtures: {e}"));
+            return;
+        }
+    };
+    let probes = probe_list();
+    rep.set(
+        "live_probe_alphabet",
+        json!({"names": PROBE_NAMES.len(), "handshakes_per_round": PROBE_NAMES.len() * 3 + ULABEL_PROBES.len(),
+            "authority_forms": AFORMS.iter().map(|f| f.name()).collect::<BTreeSet<_>>()}),
+    );
+
+    if let Some(path) = &ctx.replay {
+        let v: Value = serde_json::from_str(&std::fs::read_to_string(path).unwrap_or_default()).unwrap_or(Value::Null);
+        let mut cases: Vec<u64> = v["witnesses"]
+            .as_array()
+            .cloned()
+            .unwrap_or_default()
+            .iter()
+            .filter_map(|w| w["case"].as_str()?.strip_prefix("b:")?.parse().ok())
+            .collect();
+        cases.sort();
+        cases.dedup();
+        for c in cases {
+            run_live_case(ctx, &pool, &probes, c, rep);
+        }
+        rep.required.clear();
+        return;
+    }
+
+    let n = ctx.opt_u64("live_cases", ctx.tier.pick(480, 9_600));
+    par_cases_named(ctx, rep, n, "live", |i, r| run_live_case(ctx, &pool, &probes, i, r));
+}
+
+/// move the counters, requirements and extra keys of one part under `<ns>.`
+fn namespaced(mut r: Report, ns: &str) -> Report {
+    let observed = std::mem::take(&mut r.observed);
+    for (k, v) in observed {
+        let nk = if k.starts_with("violation:") {
+            k
+        } else if let Some(rest) = k.strip_prefix("max:") {
+            format!("max:{ns}.{rest}")
+        } else {
+            format!("{ns}.{k}")
+        };
+        r.observed.insert(nk, v);
+    }
+    r.required = std::mem::take(&mut r.required).into_iter().map(|k| format!("{ns}.{k}")).collect();
+    r.extra = std::mem::take(&mut r.extra).into_iter().map(|(k, v)| (format!("{ns}.{k}"), v)).collect();
+    r
+}
+
 pub fn run(ctx: &Ctx) -> Report {
     let mut rep = Report::new(
         "exploration",
-        "random histories (6..34 operations) of add / remove / replace on a CertificateResolver over a sub-pool of 3..9 of 24 committed certificates (overlapping exact and one-label wildcard names, RSA and ECDSA, CN-only, IDN, different lifetimes), with name and expiry overrides, re-adds, replacements by itself, unknown / malformed old fingerprints and injected faults (bad PEM, truncated DER, wrong key, bad chain); after every operation 66 probes (16 names x case variants, trailing dot, U-label) are resolved through domain_lookup / names_for_sni / get_certificate and through ResolvesServerCert::resolve and compared with a reference model of the statement; a case is non-trivial when it held >= 2 certificates at once or removed / replaced a loaded one; distinct = distinct operation-shape sequences",
+        "(a) random histories (6..34 operations) of add / remove / replace on a CertificateResolver over a sub-pool of 3..9 of 24 committed certificates (overlapping exact and one-label wildcard names, RSA and ECDSA, CN-only, IDN, different lifetimes), with name and expiry overrides, re-adds, replacements by itself, unknown / malformed old fingerprints and injected faults (bad PEM, truncated DER, wrong key, bad chain); after every operation 66 probes (16 names x case variants, trailing dot, U-label) are resolved through domain_lookup / names_for_sni / get_certificate and through ResolvesServerCert::resolve and compared with a reference model of the statement. (b) the same kind of histories (6..16 commands) sent as AddCertificate / RemoveCertificate / ReplaceCertificate to a live worker with an HTTPS listener; every 1..3 commands (and after every failing one) a real TLS handshake per probe (16 names x lower / upper or mixed case with the rustls client, trailing dot and U-label with a hand-built TLS 1.2 hello) and the presented leaf is compared with the same model; half of the replaces run while a second thread keeps handshaking; requests (H1 and H2 over TLS; authority in 8 forms: case, port, trailing dot, U-label) on a third of the canonical connections and, in every 6th cell, a fixed script where the resolver changes after / during the handshake, judged against the certificate served on the connection by what the recording backend saw. A case is non-trivial when it held >= 2 certificates at once or removed / replaced a loaded one; distinct = distinct operation-shape sequences",
     );
-    run_resolver(ctx, &mut rep);
-    // part (b) — live worker, real handshakes, strict SNI binding — goes here
+    // (a) may use up to 45 % of the budget, (b) the rest but for a teardown margin
+    let mut ctx_a = ctx.clone();
+    ctx_a.budget = ctx.budget.mul_f64(0.45);
+    let mut ra = rep.fork();
+    run_resolver(&ctx_a, &mut ra);
+    rep.merge(namespaced(ra, "a"));
+
+    let mut ctx_b = ctx.clone();
+    ctx_b.budget = ctx.budget.mul_f64(0.9);
+    let mut rb = rep.fork();
+    run_live(&ctx_b, &mut rb);
+    rep.merge(namespaced(rb, "b"));
     rep
 }
